@@ -110,9 +110,17 @@ pub fn judge(d: Decoder, len: usize, obs: &Obs) -> Option<(String, String)> {
             guard::panic_signature("C07", file, msg),
             format!("decoder {} panicked on a {len}-byte input at {}: {msg}", d.name(), guard::normalise_file(file)),
         )),
-        Obs::AllocRefused { bytes } => Some((
+        Obs::AllocRefused { bytes } if *bytes > SINGLE_REQUEST_CAP => Some((
             format!("C07:alloc:single-request-over-cap:{label}"),
             format!("decoder {} on a {len}-byte input requested a single allocation of {bytes} bytes (> 256 MiB cap; the process aborts when the allocator refuses)", d.name()),
+        )),
+        Obs::AllocRefused { bytes } => Some((
+            format!("C07:alloc:peak-over-bound:{label}"),
+            format!(
+                "decoder {} on a {len}-byte input requested a single allocation of {bytes} bytes, which alone exceeds the bound 1024*len + 1 MiB = {} (request refused by the harness allocator)",
+                d.name(),
+                alloc_bound(len)
+            ),
         )),
         Obs::Signal(sig) => Some((
             format!("C07:crash:signal{sig}:{label}"),
@@ -149,9 +157,11 @@ fn child_run(cases: &[(Decoder, Vec<u8>)], table: &Shared, from: usize, wfd: i32
     guard::install_hook();
     let debug = std::env::var("VERIF_DEBUG").is_ok();
     vcore::alloc::set_report_fd(wfd);
-    vcore::alloc::set_single_request_cap(SINGLE_REQUEST_CAP);
     for i in from..cases.len() {
         let (d, bytes) = &cases[i];
+        // a single request above the per-call bound is by itself a violation of the bound: refusing it there (instead
+        // of at 256 MiB) gives the same verdict without spending seconds in multi-million-element loops
+        vcore::alloc::set_single_request_cap(SINGLE_REQUEST_CAP.min(alloc_bound(bytes.len())));
         table.set(i, Slot { state: 1, growth: 0, biggest: 0 });
         arm_cpu_timer(CPU_LIMIT_S);
         let t_case = if debug { Some(std::time::Instant::now()) } else { None };
@@ -161,6 +171,7 @@ fn child_run(cases: &[(Decoder, Vec<u8>)], table: &Shared, from: usize, wfd: i32
         let growth = vcore::alloc::peak().saturating_sub(base) as u64;
         let biggest = vcore::alloc::biggest() as u64;
         arm_cpu_timer(0);
+        vcore::alloc::set_single_request_cap(usize::MAX);
         if let Some(t) = t_case {
             let ms = t.elapsed().as_millis();
             if ms >= 20 {
@@ -651,7 +662,7 @@ fn meta<'a>(floor: u64) -> vcore::Meta<'a> {
         rule: "the decoder returned Ok, or the input is a mutation (<= 3 edits) of a valid encoding, i.e. decoding got past the header; distinct by (decoder, input bytes)",
         assumptions: &[
             "harness profile: release, overflow-checks on (panics that exist only with overflow checks carry :profile=overflow-checks)",
-            "allocation bound per decode call: peak heap growth <= 1024*len + 1 MiB, no single request > 256 MiB (refused by the counting allocator => observed abort)",
+            "allocation bound per decode call: peak heap growth <= 1024*len + 1 MiB (a single request above that bound is refused by the counting allocator and reported as peak-over-bound; above 256 MiB as single-request-over-cap); a refused request aborts the child, which the parent observes",
             "CPU limit per input 2 s (ITIMER_PROF in the forked child)",
             "payload types: the 60-type palette of supported shapes; maps, bitsets, aliases, CHAR16 and sequences of sequences are todo!() in the library and not 'supported data types'",
             "libFuzzer campaigns are pinned by -seed/-runs on a fresh copy of the committed seeds; every artifact is confirmed through the deterministic in-process path before it is reported",
